@@ -46,7 +46,7 @@ for path in (out, tmp):
     if not os.path.exists(path):
         continue
     for line in open(path):
-        m = re.match(r"\| (C\d\d-[a-z]) \|", line)
+        m = re.match(r"\| (C\d\d-[a-z0-9]+) \|", line)
         if m:
             rows[m.group(1)] = line
 with open(out, "w") as f:
